@@ -25,6 +25,7 @@
 //       deep-nesting-stack-overflow : bracket nesting depth of the text above C16_NEST_CAP
 #include <occa.hpp>
 #include <occa/internal/io/output.hpp>
+#include <occa/internal/utils/env.hpp>
 #include <occa/internal/lang/modes/serial.hpp>
 #include <occa/internal/lang/modes/openmp.hpp>
 #include <occa/internal/lang/modes/cuda.hpp>
@@ -216,7 +217,11 @@ extern "C" int LLVMFuzzerInitialize(int *, char ***) {
   occa::io::stdout.setOverride(sink);
   g_echo = getenv("VERIF_C16_ECHO") != NULL;
   const char *dir = getenv("VERIF_C16_DIR");
-  if (dir && *dir && chdir(dir) != 0) { fprintf(stderr, "C16: cannot chdir to %s\n", dir); _exit(3); }
+  if (dir && *dir) {
+    // OCCA resolves relative file names against env::CWD, captured when the library was loaded
+    if (chdir(dir) != 0) { fprintf(stderr, "C16: cannot chdir to %s\n", dir); _exit(3); }
+    occa::env::CWD = std::string(dir) + (dir[strlen(dir) - 1] == '/' ? "" : "/");
+  }
   snprintf(g_file, sizeof(g_file), "c16_%ld.okl", (long) getpid());
   const char *known = getenv("VERIF_KNOWN");
   for (int k = 0; k < K_COUNT; ++k) {
